@@ -73,9 +73,11 @@ def gen_dead_worker(rng):
     c = runnerio.gen_case(rng, "fault")
     c["start_fails"] = False
     c["has_t"] = False  # no kill: the process keeps running, so a reader can only end by the injected fault
-    sched = [t for t in c["sched"] if not t.startswith("x") and t not in ("fo", "fe", "co", "ce", "timer")]
+    sched = [t for t in c["sched"] if not t.startswith("x") and t not in ("fo", "fe", "bo", "be", "co", "ce", "timer")]
     sched = sched[: rng.randint(0, 12)]
     fault = "fo" if (c["pty"] or rng.random() < 0.5) else "fe"
+    if rng.random() < 0.35:  # the worker dies of a BaseException that is not an Exception (e.g. a stream calling sys.exit())
+        fault = "b" + fault[1]
     sched.append(fault)
     rnd = ["out"] + ([] if c["pty"] else ["err"]) + (["stdin"] if c["has_in"] else []) + ["main"]
     for _ in range(4 * len(c["ins"] or []) + 20):
